@@ -144,6 +144,10 @@ SITES = [
     # an inner lambda re-uses the outer parameter's name; a site on the OUTER parameter comes after the nested lambda
     ("shadow-then-outer", "(e.jets().Select(lambda e: {c1}), {c2})", [("Jet", "e", 1), ("Ev", "e", 2)], ("Select",)),
     ("shadow-then-outer-d2", "e.jets().Select(lambda j: (j.trks().Select(lambda j: {c1}), {c2}))", [("Trk", "j", 1), ("Jet", "j", 2)], ("Select",)),
+    # the typed object comes out of a negative / computed subscript
+    ("subneg", "{c1}", [("Jet", "e.jets()[-1]", 1)], ("Select", "Where")),
+    ("subexpr", "{c1} + {c2}", [("Jet", "e.jets()[1 - 2]", 1), ("Jet", "e.jets()[0]", 2)], ("Select",)),
+    ("subneg-d2", "e.jets().Select(lambda j: {c1})", [("Trk", "j.trks()[-1]", 1)], ("Select", "SelectMany")),
     ("outer-then-shadow", "({c2}, e.jets().Where(lambda e: {c1} > 1))", [("Jet", "e", 1), ("Ev", "e", 2)], ("Select",)),
 ]
 
@@ -179,6 +183,8 @@ class C09(Check):
                     for site in SITES:
                         if (site[0].startswith("fnres")) != (place == "func+method"):
                             continue
+                        if site[0].startswith("sub") and beh not in ("identity", "md", "rebuild", "md+rebuild"):
+                            continue  # the receiver text holds a call of its own (e.jets()): behaviours that re-spell calls are covered by the other sites
                         for op in site[3]:
                             for parent in ("root", "derived", "root+inherit", "root+usercoll", "root+genericbase"):
                                 out.append((place, beh, site[0], op, parent))
@@ -200,7 +206,7 @@ class C09(Check):
         site = next(s for s in SITES if s[0] == sname)
         calls = [call_text(place, var, arg) for (_, var, arg) in site[2]]
         body = site[1].format(c1=calls[0] if calls else "", c2=calls[1] if len(calls) > 1 else "")
-        if op == "Where" and sname in ("d1", "d1x2", "none", "d1-and-d3"):
+        if op == "Where" and sname in ("d1", "d1x2", "none", "d1-and-d3", "subneg"):
             body = f"({body}) > 1"
         lam = f"lambda e: {body}"
         if parent.endswith("+samenames"):
@@ -276,6 +282,11 @@ class C09(Check):
                     res["viol"].append({"kind": "property-parameters-not-passed-by-value", "canon": canon,
                                         "msg": f"wanted {want_params}, log {[(o, p) for _, o, _, p in log]}"})
                     return res
+        if place in ("prop", "proplist") and op == "Select" and sname in ("d1", "d1x2"):
+            # the callback of a parameterized property states its result type (float): the enclosing expression is typed with it
+            if s1.item_type is not float:
+                res["viol"].append({"kind": "parameterized-property-type-lost", "canon": canon, "msg": f"{lam}: item type {s1.item_type!r}, the callback said float"})
+                return res
         # ---------------- metadata on the source chain, below the new operator
         top = s1.query_ast
         if not (isinstance(top, ast.Call) and isinstance(top.func, ast.Name) and top.func.id == op):
@@ -328,6 +339,12 @@ def reference_sites(lam_src):
     def ty(n, env):
         if isinstance(n, ast.Name):
             return env.get(n.id)
+        if isinstance(n, ast.Subscript):
+            r = ty(n.value, env)
+            ty(n.slice, env)
+            if isinstance(r, tuple) and r[0] == "seq" and not isinstance(n.slice, ast.Slice):
+                return r[1]
+            return None
         if isinstance(n, ast.Call):
             f = n.func
             if isinstance(f, ast.Subscript) and isinstance(f.value, ast.Attribute):
